@@ -89,6 +89,16 @@ class C07(Check):
             if rng.random() < 0.3:
                 rng.shuffle(l)
             out.append({"terms": l[:6], "ctx": ctx})
+        if tier == "thorough":
+            # bounded-exhaustive: every ordered pair of rows over (a, b) with coefficients and constants in {-1, 0, 1}, without a
+            # context and with every one-row context (14 400 cases)
+            rows = G.grid_rows()
+            for l in G.grid_lists(rows, 2):
+                if len(l) != 2:
+                    continue
+                out.append({"terms": l, "ctx": None, "tag": "grid"})
+                for c0 in rows:
+                    out.append({"terms": [dict(c=dict(t["c"]), k=t["k"]) for t in l], "ctx": [dict(c=dict(c0["c"]), k=c0["k"])], "tag": "grid"})
         # contract construction: "contract.g after construction"
         for i in range(max(40, n // 8)):
             out.append(gen_ctor(rng))
